@@ -6,6 +6,7 @@ DBus Bus implementation
 
 import binascii
 import os
+import re
 
 from twisted.python import log
 
@@ -492,10 +493,9 @@ class Bus (objects.DBusObject):
             'arg0namespace': None,
         }
 
-        for item in rule.split(','):
-            k, v = item.split('=')
-
-            value = v[1:-1]
+        # key='value' pairs; a value may itself contain ',' or '=' and an
+        # empty rule (which matches everything) has no pairs at all
+        for k, value in re.findall(r"([A-Za-z0-9_]+)='([^']*)'", rule):
 
             if k == 'type':
                 k = 'mtype'
